@@ -1,9 +1,12 @@
 package main
 
 // Generators: dependency graphs rendered as Go source.  Node i is the i-th declaration in the text and is named
-// by names[i]; an edge i->j is one reference to j placed inside i.  Locals, parameters, results, receivers and
-// fields use lower-case names that never equal a declaration name (known-finding class F1 is avoided), and a
+// by names[i]; an edge i->j is one reference to j placed inside i.  Locals, parameters, results and receivers
+// use lower-case names that never equal a declaration name (known-finding class F1 is avoided), and a
 // reference from scope depth >= 2 is only placed when j is declared later in the text (class F2 is avoided).
+// Struct FIELDS may be named like declarations (named struct types and anonymous struct types in initialisers and
+// function bodies) and keyed struct literals use those names as keys: neither is a reference.  Identifier keys of
+// map / array literals ARE references (known finding C17-3: only used next to another reference to the same name).
 
 import (
 	"fmt"
@@ -117,6 +120,34 @@ func randomGraph(r *vh.Rng) graph {
 // render returns the text of every declaration node, or ok=false when the graph falls into the excluded class F2
 // (a function/method declaration, whose signature and body are at scope depth >= 2, referring to an earlier name).
 func renderPieces(g graph, r *vh.Rng) (pieces []string, ok bool) {
+	// struct types may get extra int fields NAMED LIKE DECLARATIONS of the input (a field name is not a reference, neither
+	// where the field is declared nor as the key of a keyed struct literal); decided up front because a literal of the type
+	// can be rendered before the type itself
+	coll := make([][]string, len(g.Nodes))
+	asSlice := make([]bool, len(g.Nodes))
+	for i, n := range g.Nodes {
+		if n.Kind != "type" {
+			continue
+		}
+		asSlice[i] = len(n.Edges) == 1 && !n.Self && r.Chance(1, 3)
+		if !asSlice[i] && r.Chance(1, 2) {
+			for k := 1 + r.Intn(2); k > 0; k-- {
+				c := names[r.Intn(len(g.Nodes))]
+				dup := false
+				for _, x := range coll[i] {
+					dup = dup || x == c
+				}
+				if !dup {
+					coll[i] = append(coll[i], c)
+				}
+			}
+		}
+	}
+	// a keyed literal of an anonymous struct type whose only field is named like a random declaration of the input
+	anonLit := func() string {
+		c := names[r.Intn(len(g.Nodes))]
+		return fmt.Sprintf("struct{ %s int }{%s: %d}.%s", c, c, 1+r.Intn(9), c)
+	}
 	for i, n := range g.Nodes {
 		name := names[i]
 		later := func(j int) bool { return j > i }
@@ -139,6 +170,27 @@ func renderPieces(g graph, r *vh.Rng) (pieces []string, ok bool) {
 				if later(j) {
 					max = 6
 				}
+				if g.Nodes[j].Kind == "type" && len(coll[j]) > 0 && r.Chance(1, 2) {
+					// keyed struct literal of the declared type j; the keys are field names that equal declaration names
+					c := coll[j][r.Intn(len(coll[j]))]
+					lit := fmt.Sprintf("%s{%s: %d}.%s", t, c, r.Intn(9), c)
+					if later(j) && r.Chance(1, 3) {
+						lit = "func() int { return " + lit + " }()"
+					}
+					terms = append(terms, lit)
+					continue
+				}
+				if k := g.Nodes[j].Kind; (k == "const" || k == "var") && r.Chance(1, 8) {
+					// identifier key of a MAP / ARRAY literal: an expression, hence a reference.  Known finding C17-3: scope.go
+					// ignores every identifier key, so the generators only use such a key when the same declaration refers to
+					// the name elsewhere too (here: as the index)
+					if r.Bool() {
+						terms = append(terms, fmt.Sprintf("map[int]int{%s: %d}[%s]", t, r.Intn(9), t))
+					} else {
+						terms = append(terms, fmt.Sprintf("[...]int{%s: %d}[%s]", t, r.Intn(9), t))
+					}
+					continue
+				}
 				switch r.Intn(max) {
 				case 0:
 					terms = append(terms, t)
@@ -156,6 +208,9 @@ func renderPieces(g graph, r *vh.Rng) (pieces []string, ok bool) {
 			}
 			if n.Self {
 				terms = append(terms, name)
+			}
+			if r.Chance(1, 3) {
+				terms = append(terms, anonLit())
 			}
 			sb.WriteString("var " + name)
 			if len(typ) > 0 {
@@ -190,7 +245,10 @@ func renderPieces(g graph, r *vh.Rng) (pieces []string, ok bool) {
 			if n.Self {
 				fields = append(fields, "next *"+name)
 			}
-			if len(n.Edges) == 1 && !n.Self && r.Chance(1, 3) {
+			for _, c := range coll[i] {
+				fields = append(fields, c+" int")
+			}
+			if asSlice[i] {
 				sb.WriteString("type " + name + " []" + g.name(n.Edges[0]))
 			} else {
 				sb.WriteString("type " + name + " struct{ " + strings.Join(fields, "; ") + " }")
@@ -223,6 +281,9 @@ func renderPieces(g graph, r *vh.Rng) (pieces []string, ok bool) {
 			}
 			if n.Self && n.Kind == "func" {
 				body = append(body, "if false { "+name+"("+strings.Repeat("nil, ", len(params))+") }")
+			}
+			if r.Chance(1, 4) {
+				body = append(body, "_ = "+anonLit())
 			}
 			sb.WriteString("func " + recv + fname + "(" + strings.Join(params, ", ") + ") { " + strings.Join(body, "; ") + " }")
 		}
